@@ -26,7 +26,7 @@ func init() { register("C10", propC10) }
 
 type gcDatum struct {
 	labels []string
-	val    int64
+	val    string
 	ts     int64
 	expiry time.Duration
 	d      datum.Datum
@@ -45,7 +45,7 @@ func gcSnapshot(m *metrics.Metric) []*gcDatum {
 	m.RLock()
 	defer m.RUnlock()
 	for _, lv := range m.LabelValues {
-		out = append(out, &gcDatum{labels: append([]string{}, lv.Labels...), val: datum.GetInt(lv.Value), ts: lv.Value.TimeUTC().UnixNano(), expiry: lv.Expiry, d: lv.Value})
+		out = append(out, &gcDatum{labels: append([]string{}, lv.Labels...), val: lv.Value.ValueString(), ts: lv.Value.TimeUTC().UnixNano(), expiry: lv.Expiry, d: lv.Value})
 	}
 	return out
 }
@@ -74,7 +74,7 @@ func gcJudge(e *Env, gm *gcMetric, after []*gcDatum, T time.Time, ctxt string) {
 			if b.d == a.d {
 				found = true
 				if strings.Join(b.labels, "\x00") != strings.Join(a.labels, "\x00") || b.val != a.val || b.ts != a.ts || b.expiry != a.expiry {
-					e.Fail("collateral-change", "%s: metric %s: kept datum %q changed: before (v=%d t=%d exp=%v) after (v=%d t=%d exp=%v)", ctxt, gm.desc, a.labels, b.val, b.ts, b.expiry, a.val, a.ts, a.expiry)
+					e.Fail("collateral-change", "%s: metric %s: kept datum %q changed: before (v=%s t=%d exp=%v) after (v=%s t=%d exp=%v)", ctxt, gm.desc, a.labels, b.val, b.ts, b.expiry, a.val, a.ts, a.expiry)
 					return
 				}
 				break
@@ -170,7 +170,16 @@ func propC10(e *Env) {
 	for i := 0; i < nm; i++ {
 		arity := 1 + e.Choose("gen", 2)
 		keys := []string{"a", "b"}[:arity]
-		m := metrics.NewMetric(fmt.Sprintf("m%d", i), "prog", metrics.Counter, metrics.Int, keys...)
+		// every value type: what GC looks at is the time of the last update, whatever the datum holds
+		kt := []struct {
+			k metrics.Kind
+			t metrics.Type
+		}{{metrics.Counter, metrics.Int}, {metrics.Gauge, metrics.Float}, {metrics.Text, metrics.String}, {metrics.Histogram, metrics.Buckets}, {metrics.Counter, metrics.Int}}[e.Choose("gen", 5)]
+		m := metrics.NewMetric(fmt.Sprintf("m%d", i), "prog", kt.k, kt.t, keys...)
+		if kt.t == metrics.Buckets {
+			m.Buckets = []datum.Range{{Min: 0, Max: 1}, {Min: 1, Max: 2}, {Min: 2, Max: 4}}
+		}
+		intended := map[string]int64{}
 		nd := e.Choose("gen", 7)
 		switch e.Choose("gen", 4) {
 		case 0:
@@ -227,7 +236,26 @@ func propC10(e *Env) {
 				age = time.Duration(e.Choose("gen", 1000000)) * time.Millisecond
 			}
 			ts := T.Add(-age)
-			datum.SetInt(d, int64(10*i+j), ts)
+			update := func(at time.Time) {
+				v := int64(10*i + j)
+				switch kt.t {
+				case metrics.Int:
+					datum.SetInt(d, v, at)
+				case metrics.Float:
+					datum.SetFloat(d, float64(v)/2, at)
+				case metrics.String:
+					datum.SetString(d, fmt.Sprintf("s%d", v), at)
+				case metrics.Buckets:
+					datum.Observe(d, float64(v%3), at)
+				}
+			}
+			if e.Choose("gen", 3) == 0 {
+				// an earlier update with the same value: the later one, at ts, is what counts
+				update(ts.Add(-time.Duration(1+e.Choose("gen", 200)) * time.Hour))
+				e.Probe("refreshed_with_same_value")
+			}
+			update(ts)
+			intended[strings.Join(labels, "\x00")] = ts.UnixNano()
 			if exp > 0 {
 				if err := m.ExpireDatum(exp, labels...); err != nil {
 					e.Broken("ExpireDatum: %v", err)
@@ -236,6 +264,10 @@ func propC10(e *Env) {
 			}
 		}
 		gm.data = gcSnapshot(m)
+		for _, d := range gm.data {
+			// the model goes by the instant of the last update as the harness made it
+			d.ts = intended[strings.Join(d.labels, "\x00")]
+		}
 		var ds []string
 		for _, d := range gm.data {
 			ds = append(ds, fmt.Sprintf("%s:age=%v,exp=%v", strings.Join(d.labels, "/"), T.Sub(time.Unix(0, d.ts)), d.expiry))
